@@ -394,6 +394,10 @@ type Checker[C any] struct {
 	// calling Check (unrecoverable process death is then attributable).
 	Risky func(c C) bool
 
+	// KeepLen is how many earlier results stay under watch (default 8): see Keep.
+	KeepLen   int
+	keepers   []func() string
+	keepSeq   int
 	ring      []C // the last historyLen cases evaluated by this process
 	ringPos   int
 	frozen    []C // history before the first failure of this process (kept for the shrunk cases too)
@@ -414,6 +418,41 @@ func (k *Checker[C]) remember(c C) {
 	}
 	k.ring[k.ringPos] = c
 	k.ringPos = (k.ringPos + 1) % historyLen
+}
+
+// Keep registers a closure that re-validates something the code under test RETURNED for the
+// current case (the closure holds the returned slices/strings and private copies of what they
+// must contain). The closures of the last KeepLen cases are run again after every later case:
+// a result belongs to the caller and must not change when the library is called again (results
+// that alias pooled, cached or shared library memory show up here). A non-empty string fails the
+// case that was running when the change was noticed; its history names the earlier cases.
+func (k *Checker[C]) Keep(fn func() string) {
+	n := k.KeepLen
+	if n <= 0 {
+		n = 8
+	}
+	k.keepSeq++
+	k.keepers = append(k.keepers, fn)
+	if len(k.keepers) > n {
+		k.keepers = k.keepers[len(k.keepers)-n:]
+	}
+}
+
+// RunKeepers lets a grid that evaluates cases directly (not through Eval) re-validate the kept results.
+func (k *Checker[C]) RunKeepers() *Failure { return k.runKeepers() }
+
+func (k *Checker[C]) runKeepers() *Failure {
+	for i, fn := range k.keepers {
+		var msg string
+		if pf := Try("keeper", func() { msg = fn() }); pf != nil {
+			msg = pf.Msg
+		}
+		if msg != "" {
+			k.keepers = append(k.keepers[:i:i], k.keepers[i+1:]...)
+			return &Failure{Kind: "result-changed-after-return", Msg: "a result returned for an earlier case no longer reads as it did when it was returned (it aliases memory the library reuses): " + msg}
+		}
+	}
+	return nil
 }
 
 // Remember records a case that a grid evaluated directly (not through Eval), so that it is
@@ -470,10 +509,21 @@ func (k *Checker[C]) Eval(c C) *Failure {
 		}
 	}
 	var f *Failure
+	nKeep, seqBefore := len(k.keepers), k.keepSeq
 	if pf := Try("harness check", func() { f = k.Check(c) }); pf != nil {
 		// a panic that escaped Check's own guarded calls is a harness problem
 		Infra("panic inside the harness check (outside guarded calls): " + pf.Msg)
 		f = nil
+	}
+	if added := k.keepSeq - seqBefore; f != nil && added > 0 {
+		// results of a failing case are not put under watch (they would fail every later case,
+		// in particular the shrink candidates, for a reason that is not theirs)
+		k.keepers = k.keepers[:max(len(k.keepers)-added, 0)]
+	}
+	if f == nil && nKeep > 0 {
+		// results returned for earlier cases must still read the same (those registered by this very
+		// case are at the end of the list and trivially fine)
+		f = k.runKeepers()
 	}
 	if armed {
 		disarmPending()
